@@ -380,6 +380,12 @@ def gen_case(rng, cid, max_ops=26):
                 if rng.random() < 0.1:
                     e = H(rng.choice(EPS))      # right uid, other endpoint name: a different upstream
             op = {"op": "remove", "u": u, "e": e}
+            if (u, e) in cur and rng.random() < 0.3:
+                # the connection dies first (client gone, shed by a rebalance): the session is closed, requests keep being
+                # routed, and only then does the handler deregister the upstream
+                ops.append({"op": "sever", "u": u, "e": e})
+                for _ in range(rng.randint(1, 2 * max(1, sc.count(e)))):
+                    ops.append({"op": "select", "e": e, "allow": rng.random() < 0.5})
             if sc.apply(op) == "removed":
                 removed.append((u, e))
             ops.append(op)
@@ -534,6 +540,9 @@ CORPUS = [
     # the same upstream registered twice
     {"id": "corpus-twice", "ops": [A(1, "e"), A(1, "e"), A(2, "e"), S("e"), S("e"), S("e"), R(1, "e"), S("e"), S("e"), R(1, "e"), R(1, "e"), S("e"), S("e")]},
     # never registered upstreams
+    # a connection that dies (client gone / shed) while requests keep arriving, deregistered by its handler afterwards
+    {"id": "corpus-severed", "ops": [A(1, "e"), A(2, "e"), {"op": "sever", "u": 1, "e": H("e")}, S("e"), S("e"), S("e"), R(1, "e"), S("e"),
+                                     {"op": "sever", "u": 2, "e": H("e")}, S("e"), S("e", True), R(2, "e"), S("e"), A(3, "e"), S("e")]},
     {"id": "corpus-unknown", "ops": [R(7, "e"), A(1, "e"), R(7, "e"), R(8, "E"), S("e"), R(1, "e"), R(1, "e"), S("e")]},
     # remote branch: only when allowed, only when nothing is local, only active nodes with listeners > 0
     {"id": "corpus-remote", "ops": [
@@ -609,6 +618,8 @@ def c_op(op):
         return "(TAddNode %s %s %s)" % (cs(op["id"]), cs(op["st"]),
                                        chain("SZ1", "SZ0", ["%s %s" % (cs(ep["e"]), c_z(ep["n"])) for ep in reversed(op["eps"])]))
     if k == "rmnode": return "(TRemoveNode %s)" % cs(op["id"])
+    # a session that dies without the manager being told changes nothing the manager knows: a no-op of the model
+    if k == "sever": return "(TRemoveNode %s)" % cs(H("~no-such-node~"))
     if k == "status": return "(TStatus %s %s)" % (cs(op["id"]), cs(op["st"]))
     if k == "remoteep": return "(TRemoteEp %s %s %s)" % (cs(op["id"]), cs(op["e"]), c_z(op["n"]))
     if k == "remoteepdel": return "(TRemoteEpDel %s %s)" % (cs(op["id"]), cs(op["e"]))
